@@ -1,0 +1,25 @@
+//go:build verif
+
+package router
+
+import (
+	"net"
+
+	"github.com/gammazero/nexus/v3/transport"
+	"github.com/gammazero/nexus/v3/wamp"
+)
+
+// VerifHandleWebsocket runs the websocket server's per-connection code
+// (sub-protocol lookup in the server's protocol table, peer creation with the
+// server's settings, attach) over an arbitrary WebsocketConnection.
+// Verification builds only (build tag verif).
+func (s *WebsocketServer) VerifHandleWebsocket(conn transport.WebsocketConnection, transportDetails wamp.Dict) {
+	s.handleWebsocket(conn, transportDetails)
+}
+
+// VerifHandleRawSocket runs the rawsocket server's per-connection code
+// (handshake with the server's settings, attach) over an arbitrary net.Conn.
+// Verification builds only (build tag verif).
+func (s *RawSocketServer) VerifHandleRawSocket(conn net.Conn) {
+	s.handleRawSocket(conn)
+}
